@@ -70,6 +70,9 @@ func c12(r *rep.Run) {
 	progs := Programs(eventsAlphabet(), []term.Ty{B, I}, max)
 	r.Cov["programs"] = len(progs)
 	hs := harnesses(r.Workers)
+	for _, h := range hs {
+		h.ScribbleArgs = true // registered operators overwrite their argument slice before returning
+	}
 	var multiOp int64
 	done := r.ParallelFor(len(progs), func(w, i int) {
 		p := progs[i]
